@@ -195,7 +195,41 @@ fn gen_case(src: &mut Src, st: &mut Stats) -> Value {
             _ => src.range(-3, 3).clamp(lo.max(-3) as i64, hi.min(3) as i64).to_string(),
         }
     };
+    // numerals with 17 significant digits: how they are read must not depend on the build
+    let long_numeral = |src: &mut Src| -> String {
+        let f = f64::from_bits(src.u64());
+        let f = if f.is_finite() && f.abs() > 1e-300 && f.abs() < 1e300 { f } else { 1.9999999999999998 };
+        if src.flip() {
+            format!("{:e}", f)
+        } else {
+            src.pick(&["1.9999999999999998", "100.99999999999999", "0.30000000000000004", "9007199254740993.5", "2.2250738585072011e-308", "123456789.12345678", "5e-324"]).to_string()
+        }
+    };
+    let expr = if src.chance(24) {
+        let n = long_numeral(src);
+        match src.below(4) {
+            0 => format!("floor(`{}`)", n),
+            1 => format!("to_number('{}')", n),
+            2 => format!("`{}` == `{}`", n, long_numeral(src)),
+            _ => format!("to_string(`[{}, {}]`)", n, long_numeral(src)),
+        }
+    } else {
+        expr
+    };
     let data: Value = match kind {
+        k if doc_kind && src.chance(30) => {
+            // a big table: many array nodes, long rows
+            let _ = k;
+            let n = src.size(400);
+            let rows: Vec<Value> = (0..n).map(|i| json!([i, i + 1, {"k": [i]}])).collect();
+            json!({"rows": rows, "nums": (0..n).collect::<Vec<usize>>(), "s": "x"})
+        }
+        k if doc_kind && src.chance(20) => {
+            let _ = k;
+            let a: Value = serde_json::from_str(&long_numeral(src)).unwrap_or(json!(1.5));
+            let b: Value = serde_json::from_str(&long_numeral(src)).unwrap_or(json!(2.5));
+            json!({"n": a, "nums": [b, 1, 2.5], "s": "x"})
+        }
         k if doc_kind => {
             let _ = k;
             match src.below(3) {
